@@ -1,10 +1,13 @@
 #!/usr/bin/env python3
 """C08: a crash at any point of a kernel build never poisons the cache (E3 fsx, kill-point enumeration)."""
 import json, os, shutil, sys, time
+from itertools import zip_longest
 from concurrent.futures import ThreadPoolExecutor
 sys.path.insert(0, os.path.dirname(os.path.dirname(os.path.dirname(os.path.abspath(__file__)))))
 from vlib.core import Check, load_replay, NCPU
 from vlib import fsx
+import threading
+RETRY_LOCK = threading.Lock()
 
 KERNEL_FILE = '''#include "a.h"
 @kernel void k(int *out) {
@@ -63,11 +66,20 @@ def main():
             os.makedirs(cache)
         env = fsx.base_env(cache)
         args = [pfs, "--root", cache, "--wait-orphans"] + (["--group"] if grp else []) + (["--torn", str(k)] if torn else ["--kill-before", str(k)]) + ["--"]
-        r1 = fsx.run_probe(kprobe, spec, env, timeout=120, prefix=args, cwd=src)
+        r1 = fsx.run_probe(kprobe, spec, env, timeout=300, prefix=args, cwd=src)
+        if r1.timed_out:
+            # load-induced: re-run this deterministic kill point alone with a longer limit
+            with RETRY_LOCK:
+                shutil.rmtree(cache, ignore_errors=True)
+                if pre:
+                    shutil.copytree(pre, cache)
+                else:
+                    os.makedirs(cache)
+                r1 = fsx.run_probe(kprobe, spec, env, timeout=1200, prefix=args, cwd=src)
         killed = (r1.rc == 137)
         listing = fsx.list_cache(cache)
-        r2 = fsx.run_probe(kprobe, spec, env, timeout=120, cwd=src)
-        r3 = fsx.run_probe(kprobe, spec, env, timeout=120, cwd=src) if r2.rc == 0 else None
+        r2 = fsx.run_probe(kprobe, spec, env, timeout=600, cwd=src)
+        r3 = fsx.run_probe(kprobe, spec, env, timeout=600, cwd=src) if r2.rc == 0 else None
         if not c.args.keep:
             shutil.rmtree(cache, ignore_errors=True)
         return killed, r1, r2, r3, listing
@@ -143,6 +155,12 @@ def main():
             if o["name"] == "wait":
                 jobs.append((name, kind, mode, pre, spec, predir, o["idx"], False, True))
         shutil.rmtree(cache, ignore_errors=True)
+
+    # round-robin over scenarios so that a budget cut removes kill points evenly, not whole scenarios
+    byscn = {}
+    for j in jobs:
+        byscn.setdefault(j[0], []).append(j)
+    jobs = [j for group in zip_longest(*byscn.values()) for j in group if j is not None]
 
     def work(ji):
         if time.time() > deadline:
